@@ -82,6 +82,10 @@ func NewEngine(e EngineSpec, sfs *SimFS) *Engine {
 	sfs.SetOp(maxOps - 6)
 	sfs.SetJitter(e.MtimeJitter)
 	view := sfs.View(e)
+	if e.Overlay {
+		// two layers over the same simulated files: an Open that fails on the upper layer is retried on the lower one
+		view = vuego.NewOverlayFS(view, view)
+	}
 	var opts []vuego.LoadOption
 	if e.Funcs {
 		opts = append(opts, vuego.WithFuncs(harnessFuncs()))
